@@ -12,6 +12,7 @@ import (
 
 	"github.com/vbauerster/mpb/v8/cwriter"
 	"github.com/vbauerster/mpb/v8/decor"
+	"github.com/vbauerster/mpb/v8/internal/verifhook"
 )
 
 const defaultRefreshRate = 150 * time.Millisecond
@@ -161,6 +162,7 @@ func (p *Progress) Add(total int64, filler BarFiller, options ...BarOption) (*Ba
 	case p.operateState <- func(ps *pState) {
 		bs := ps.makeBarState(total, filler, options...)
 		bar := newBar(ps.ctx, p, bs)
+		verifhook.Event(verifhook.CtAdd, bar, bs.id, bs.priority, total, bs.waitBar, bs.rmOnComplete, bs.noPop, bs.triggerComplete)
 		if bs.waitBar != nil {
 			ps.queueBars[bs.waitBar] = bar
 		} else {
@@ -262,13 +264,17 @@ func (p *Progress) serve(s *pState, cw *cwriter.Writer) {
 		case <-s.delayRC:
 			w, cw = cw, nil
 			s.delayRC = nil
+			verifhook.Event(verifhook.CtDelayEnd)
 		case op := <-operateState:
+			verifhook.Event(verifhook.CtOp)
 			op(s)
 		case fn := <-interceptIO:
+			verifhook.Event(verifhook.CtIO)
 			fn(w)
 		case <-renderReq:
 			err = s.render(w)
 			if err != nil {
+				verifhook.Event(verifhook.CtRenderErr, err.Error())
 				// (*pState).(autoRefreshListener|manualRefreshListener) may block
 				// if not launching following short lived goroutine
 				go func() {
@@ -286,6 +292,7 @@ func (p *Progress) serve(s *pState, cw *cwriter.Writer) {
 				interceptIO = nil
 			}
 		case <-p.done:
+			verifhook.Event(verifhook.CtDone, err != nil)
 			if err != nil {
 				_, _ = fmt.Fprintln(s.debugOut, err.Error())
 			} else if s.autoRefresh {
@@ -299,6 +306,7 @@ func (p *Progress) serve(s *pState, cw *cwriter.Writer) {
 				}
 			}
 			s.hm.end(s.shutdownNotifier)
+			verifhook.Event(verifhook.CtExit)
 			return
 		}
 	}
@@ -311,7 +319,10 @@ func (s *pState) autoRefreshListener(done chan struct{}) {
 		select {
 		case t := <-ticker.C:
 			s.renderReq <- t
+		case t := <-verifhook.Tick():
+			s.renderReq <- t
 		case <-s.ctx.Done():
+			verifhook.Event(verifhook.LsDone)
 			close(done)
 			return
 		}
@@ -328,6 +339,7 @@ func (s *pState) manualRefreshListener(done chan struct{}) {
 				s.renderReq <- time.Now()
 			}
 		case <-s.ctx.Done():
+			verifhook.Event(verifhook.LsDone)
 			close(done)
 			return
 		}
@@ -336,6 +348,7 @@ func (s *pState) manualRefreshListener(done chan struct{}) {
 
 func (s *pState) render(cw *cwriter.Writer) (err error) {
 	iter, iterPop := make(chan *Bar), make(chan *Bar)
+	verifhook.Event(verifhook.CtRenderBegin)
 	s.hm.sync(s.iterDrop)
 	s.hm.iter(s.iterDrop, iter, iterPop)
 
@@ -343,6 +356,7 @@ func (s *pState) render(cw *cwriter.Writer) (err error) {
 	if cw.IsTerminal() {
 		width, height, err = cw.GetTermSize()
 		if err != nil {
+			verifhook.Event(verifhook.CtRenderSize, width, height, true, true)
 			close(s.iterDrop)
 			return err
 		}
@@ -354,6 +368,7 @@ func (s *pState) render(cw *cwriter.Writer) (err error) {
 		}
 		height = width
 	}
+	verifhook.Event(verifhook.CtRenderSize, width, height, cw.IsTerminal(), false)
 
 	for b := range iter {
 		go b.render(width)
@@ -368,6 +383,7 @@ func (s *pState) flush(cw *cwriter.Writer, height int, iter <-chan *Bar) error {
 
 	for b := range iter {
 		frame := <-b.frameCh
+		verifhook.Event(verifhook.CtFlushBar, b, frame.shutdown, len(frame.rows), frame.rmOnComplete, frame.noPop, frame.err != nil)
 		if frame.err != nil {
 			close(s.iterDrop)
 			b.cancel()
@@ -415,6 +431,7 @@ func (s *pState) flush(cw *cwriter.Writer, height int, iter <-chan *Bar) error {
 		}
 	}
 
+	verifhook.Event(verifhook.CtFrame, len(rows), popCount)
 	return cw.Flush(len(rows) - popCount)
 }
 
